@@ -612,8 +612,11 @@ class Gen:
             self.note('premise:dynamic_inst-of-dynamic_inst')
         elif r < 0.85 or want == 'equiv':
             base = self.lemma_tree(want)
-        else:
+        elif rng.random() < 0.5:
             base = {'ax': ('imp', gen_plain(rng, 1, 3), gen_plain(rng, 1, 3))}
+        else:
+            base = {'ax': gen_pat(rng, 2, self.hist)}
+            self.note('premise:dynamic_inst-of-nonplain')
         return {'call': 'dynamic_inst', 'args': [base, {'d': self.delta(plain_only)}]}
 
     def other_lib_tree(self, name):
@@ -651,6 +654,11 @@ class Gen:
         parts = (un_equiv(E) if want else un_imp(E)) if E is not None and is_plain(E) else None
         if parts is None:
             a, b = gen_plain(rng, 1, 3), gen_plain(rng, 2, 3)
+            if rng.random() < 0.35:
+                # the re-instantiated premise is NOT plain: constrained metavariables / pending substitutions in the
+                # other component (the model follows the generator's instantiate; no documented expectation)
+                a = gen_pat(rng, 2, self.hist)
+                self.note('premise:match-family-nonplain')
             T = {'ax': ('equiv', a, b) if want else ('imp', a, b)}
             parts = (expand(a), expand(b))
             self.note('premise:match-family-assumed')
@@ -882,11 +890,13 @@ def run(tier, seed):
 
     mismatches, problems = [], []
     n_cases = 0
+    model_broken = None
     if idx is not None:
         lib = Lib(idx)
         ok, log, mlref = build_model()
         if not ok:
             R.notes.append('extracted model did not build: ' + log[-800:])
+            model_broken = log[-1500:]
         # 2. cases: corpus first, then generated
         cases = load_corpus(lib)
         G = Gen(lib, rng, R.hist)
@@ -980,6 +990,9 @@ def run(tier, seed):
         R.violation('proof-broken', 'translation or Coq proof stage failed and no failing input was found',
                     {'no_failing_input_found': True, 'theorem_or_correspondence': 'Gen/PropLibSpec.v / Props/C10.v',
                      'translation_abort': abort, 'log': P['log'][-3000:], 'cases_searched': n_cases})
+    if model_broken and not R.violations:
+        R.violation('correspondence-broken', 'the extracted model (ocaml/mlref_lib) could not be built: no tie this run',
+                    {'no_failing_input_found': True, 'theorem_or_correspondence': 'Extract/ExtractLib.v -> mlref_lib', 'log': model_broken})
     if mismatches and not R.violations and not R.known_hit:
         R.violation('correspondence-broken', 'extracted model and implementation disagree',
                     {'no_failing_input_found': True, 'theorem_or_correspondence': 'mlref_lib vs proplib_runner.py',
